@@ -1,8 +1,158 @@
 /-
-  C14 — property theorems (see DESIGN.md §5 C14).
+  C14 — `.deb` loading: a package without debian-binary, with a format version line other
+  than "2.0\n", or without a control.* / data.* member is rejected; a well-formed package
+  built by the archive specification is loaded with the packaged control paragraph, the
+  member extensions and the member index.
+  Property theorems only; lemmas live in GoDebian/Lemmas/DebPlan.lean and DebBuild.lean.
 -/
 import GoDebian.Model.Deb
 import GoDebian.Spec.Ar
+import GoDebian.Lemmas.DebPlan
+import GoDebian.Lemmas.DebBuild
 
 namespace GoDebian.Props.C14
+open GoDebian GoDebian.Ar GoDebian.Deb
+
+/-- A package that lacks debian-binary is rejected. -/
+theorem C14_reject_no_binary (bs : Bytes) (es : List Entry)
+    (h : Ar.readAll bs = some (es, .eof)) (hn : ∀ e ∈ es, e.name ≠ sDebianBinary) :
+    plan bs = .error .err :=
+  Lemmas.Deb.plan_no_binary h hn
+
+/-- Satisfiable: control and data members present, debian-binary absent (or misspelt). -/
+example :
+    let B := Bytes.ofString
+    let d1 : Spec.Ar.Member := ⟨B "debian_binary", false, some 1700000000, some 0, some 0, B "100644", B "2.0\n"⟩
+    let d2 : Spec.Ar.Member := ⟨B "control.tar.gz", false, some 1700000000, some 0, some 0, B "100644", B "xyz"⟩
+    let d3 : Spec.Ar.Member := ⟨B "data.tar.xz", true, some 1700000000, some 0, some 0, B "100644", B "data!"⟩
+    ((Ar.readAll (Spec.Ar.build [d1, d2, d3])).map (fun r => (r.1.map (·.name), r.2)))
+      = some ([B "debian_binary", B "control.tar.gz", B "data.tar.xz"], .eof) ∧
+    plan (Spec.Ar.build [d1, d2, d3]) matches .error .err := by
+  decide +kernel
+
+/-- A package that loads has a debian-binary member starting with the format version line
+    "2.0\n": any other version line is rejected. -/
+theorem C14_reject_version (bs : Bytes) (p : Plan) (hp : plan bs = .ok p) :
+    ∃ b, find sDebianBinary p.members = some b ∧ (Ar.data bs b).take 4 = [50, 46, 48, 10] :=
+  Lemmas.Deb.plan_version hp
+
+/-- Satisfiable (trailing bytes after the version line are tolerated, as by `ReadString`),
+    and the contrapositive on concrete packages: "2.1\n", "2.0" without newline, "2.0\r\n",
+    an empty member. -/
+example :
+    let B := Bytes.ofString
+    let db (v : String) : Spec.Ar.Member := ⟨B "debian-binary", false, some 1700000000, some 0, some 0, B "100644", B v⟩
+    let d2 : Spec.Ar.Member := ⟨B "control.tar.gz", false, some 1700000000, some 0, some 0, B "100644", B "xyz"⟩
+    let d3 : Spec.Ar.Member := ⟨B "data.tar.xz", true, some 1700000000, some 0, some 0, B "100644", B "data!"⟩
+    (plan (Spec.Ar.build [db "2.0\n", d2, d3])).toOption.isSome = true ∧
+    (plan (Spec.Ar.build [db "2.0\nextra\n", d2, d3])).toOption.isSome = true ∧
+    (plan (Spec.Ar.build [db "2.1\n", d2, d3])).toOption.isSome = false ∧
+    (plan (Spec.Ar.build [db "2.0", d2, d3])).toOption.isSome = false ∧
+    (plan (Spec.Ar.build [db "2.0\r\n", d2, d3])).toOption.isSome = false ∧
+    (plan (Spec.Ar.build [db "", d2, d3])).toOption.isSome = false := by
+  decide +kernel
+
+/-- A package without a control.* member, or without a data.* member, is rejected. -/
+theorem C14_reject_missing (bs : Bytes) (es : List Entry) (h : Ar.readAll bs = some (es, .eof))
+    (hn : (∀ e ∈ es, Str.hasPrefix e.name sControlDot = false) ∨
+          (∀ e ∈ es, Str.hasPrefix e.name sDataDot = false)) :
+    plan bs = .error .err :=
+  Lemmas.Deb.plan_missing h hn
+
+/-- Both disjuncts are satisfiable (a member called just "control" or "data.tar" under
+    another prefix does not count). -/
+example :
+    let B := Bytes.ofString
+    let d1 : Spec.Ar.Member := ⟨B "debian-binary", false, some 1700000000, some 0, some 0, B "100644", B "2.0\n"⟩
+    let d2 : Spec.Ar.Member := ⟨B "control.tar.gz", false, some 1700000000, some 0, some 0, B "100644", B "xyz"⟩
+    let d3 : Spec.Ar.Member := ⟨B "data.tar.xz", true, some 1700000000, some 0, some 0, B "100644", B "data!"⟩
+    let c' : Spec.Ar.Member := { d2 with name := B "control" }
+    let d' : Spec.Ar.Member := { d3 with name := B "xdata.tar" }
+    ((Ar.readAll (Spec.Ar.build [d1, c', d3])).map
+        (fun r => (r.1.all (fun e => Str.hasPrefix e.name sControlDot = false), r.2)))
+      = some (true, .eof) ∧
+    ((Ar.readAll (Spec.Ar.build [d1, d2, d'])).map
+        (fun r => (r.1.all (fun e => Str.hasPrefix e.name sDataDot = false), r.2)))
+      = some (true, .eof) ∧
+    plan (Spec.Ar.build [d1, c', d3]) matches .error .err ∧
+    plan (Spec.Ar.build [d1, d2, d']) matches .error .err := by
+  decide +kernel
+
+/-- Loading is a function of the bytes and the external answers (same bytes, same result:
+    `load` is a function) — and for a well-formed package built by the archive specification
+    it yields the extensions and the member index.  The packaged control paragraph is in
+    `C14_load_built_control`. -/
+theorem C14_load_built (ms : List Spec.Ar.Member) (schema : Codec.Schema)
+    (ctlName dataName content : Bytes) (rec : List Codec.Val)
+    (hw : ms.all Spec.Ar.wfMember = true) (hnd : (ms.map (·.name)).Nodup)
+    (hb : ∃ m ∈ ms, m.name = sDebianBinary ∧ m.data = [50, 46, 48, 10])
+    (hc : (ms.filter (fun m => Str.hasPrefix m.name sControlDot)).map (·.name) = [ctlName])
+    (hd : (ms.filter (fun m => Str.hasPrefix m.name sDataDot)).map (·.name) = [dataName])
+    (htc : isTarfile ctlName = true) (htd : isTarfile dataName = true)
+    (es : List (Bytes × Option Bytes))
+    (hfind : es.find? (fun (n, _) => Path.clean n = sControl)
+      = some ([46, 47] ++ sControl, some content))
+    (hu : Codec.unmarshal schema content = .ok rec) :
+    ∃ l, load (Spec.Ar.build ms) schema (.entries es false) true = .ok l ∧
+      l.controlExt = ctlName.drop 8 ∧ l.dataExt = dataName.drop 5 ∧
+      l.members = ms.map (·.name) :=
+  let ⟨l, h, _, h2, h3, h4⟩ :=
+    Lemmas.Deb.load_built ms schema hw hnd hb hc hd htc htd es hfind hu
+  ⟨l, h, h2, h3, h4⟩
+
+/-- The same, with the loaded control record: it is the decoding of the `./control` file of
+    the control tar, under whatever name of the tar entry cleans to "control". -/
+theorem C14_load_built_control (ms : List Spec.Ar.Member) (schema : Codec.Schema)
+    (ctlName dataName content n : Bytes) (rec : List Codec.Val)
+    (hw : ms.all Spec.Ar.wfMember = true) (hnd : (ms.map (·.name)).Nodup)
+    (hb : ∃ m ∈ ms, m.name = sDebianBinary ∧ m.data = [50, 46, 48, 10])
+    (hc : (ms.filter (fun m => Str.hasPrefix m.name sControlDot)).map (·.name) = [ctlName])
+    (hd : (ms.filter (fun m => Str.hasPrefix m.name sDataDot)).map (·.name) = [dataName])
+    (htc : isTarfile ctlName = true) (htd : isTarfile dataName = true)
+    (es : List (Bytes × Option Bytes))
+    (hfind : es.find? (fun (n, _) => Path.clean n = sControl) = some (n, some content))
+    (hu : Codec.unmarshal schema content = .ok rec) :
+    ∃ l, load (Spec.Ar.build ms) schema (.entries es false) true = .ok l ∧ l.control = rec ∧
+      l.controlExt = ctlName.drop 8 ∧ l.dataExt = dataName.drop 5 ∧
+      l.members = ms.map (·.name) :=
+  Lemmas.Deb.load_built ms schema hw hnd hb hc hd htc htd es hfind hu
+
+/-- The hypotheses are jointly satisfiable: a package with a signature member, a GNU-style
+    data member name, and a control tar whose `./control` comes after two other entries. -/
+example :
+    let B := Bytes.ofString
+    let d1 : Spec.Ar.Member := ⟨B "debian-binary", false, some 1700000000, some 0, some 0, B "100644", B "2.0\n"⟩
+    let d2 : Spec.Ar.Member := ⟨B "control.tar.gz", false, some 1700000000, some 0, some 0, B "100644", B "xyz"⟩
+    let d3 : Spec.Ar.Member := ⟨B "data.tar.xz", true, some 1700000000, some 0, some 0, B "100644", B "data!"⟩
+    let d4 : Spec.Ar.Member := ⟨B "_gpgorigin", true, none, none, none, B "644", B "SIG"⟩
+    let ms := [d1, d2, d4, d3]
+    let schema : Codec.Schema := [.mk "Package" (B "Package") .str [] [] true false false,
+      .mk "Version" (B "Version") (.custom "Version") [] [] false false false]
+    let content := B "Package: hello\nVersion: 1:2.0-3\n"
+    let es : List (Bytes × Option Bytes) :=
+      [(B "./", some []), (B "./md5sums", some (B "x")), (B "./control", some content)]
+    ms.all Spec.Ar.wfMember = true ∧ (ms.map (·.name)).Nodup ∧
+    (∃ m ∈ ms, m.name = sDebianBinary ∧ m.data = [50, 46, 48, 10]) ∧
+    (ms.filter (fun m => Str.hasPrefix m.name sControlDot)).map (·.name) = [B "control.tar.gz"] ∧
+    (ms.filter (fun m => Str.hasPrefix m.name sDataDot)).map (·.name) = [B "data.tar.xz"] ∧
+    isTarfile (B "control.tar.gz") = true ∧ isTarfile (B "data.tar.xz") = true ∧
+    es.find? (fun (n, _) => Path.clean n = sControl) = some ([46, 47] ++ sControl, some content) ∧
+    (Codec.unmarshal schema content).toOption.isSome = true ∧
+    (load (Spec.Ar.build ms) schema (.entries es false) true).toOption.map
+        (fun l => (l.controlExt, l.dataExt, l.members))
+      = some (B "tar.gz", B "tar.xz",
+              [B "debian-binary", B "control.tar.gz", B "_gpgorigin", B "data.tar.xz"]) := by
+  decide +kernel
+
+/-- … and the decoded record of that example, by evaluation. -/
+example :
+    let B := Bytes.ofString
+    (match Codec.unmarshal [.mk "Package" (B "Package") .str [] [] true false false,
+        .mk "Version" (B "Version") (.custom "Version") [] [] false false false]
+      (B "Package: hello\nVersion: 1:2.0-3\n") with
+      | .ok [.str p, .custom (.version v)] => some (p, v)
+      | _ => none)
+      = some (B "hello", ⟨1, B "2.0", B "3"⟩) := by
+  decide +kernel
+
 end GoDebian.Props.C14
